@@ -545,6 +545,10 @@ func (s *Scheme) Sign(c context.Context, msgHash []byte, topic string) ([]byte, 
 		return nil, err
 	}
 
+	// Whatever the outcome, do not leave handlers of this session behind,
+	// else the topic can never be signed again.
+	defer cleanup()
+
 	go func() {
 		if err := sync.Synchronize(ctx, initializeSigningInstance, topicHash, s.Threshold+1, SyncInterval); err != nil {
 			// suppress error in case we signed successfully
